@@ -411,7 +411,7 @@ class SeqGen:
                      b"projects/p1/topicz/t1", b"projects/p1/subscriptionz/s1", "projects/é".encode(), b"/" * 30,
                      b"projects/p1/topics/t1", b"projects/p1/subscriptions/s1", b"p" * 5000]
         bn = hx(r.choice(bad_names))
-        kind = r.below(14)
+        kind = r.below(15)
         t = hx(self.live_topic() or tname("p1", "t1"))
         s = hx(self.live_sub() or sname("p1", "s1"))
         if kind == 0:
@@ -440,8 +440,13 @@ class SeqGen:
             self.emit("pub %s %s" % (bn, hx(b"x")))
         elif kind == 12:
             self.emit("dsub " + bn)
-        else:
+        elif kind == 13:
             self.emit("sopen 99 %s %d 0" % (s, r.choice([-1, 65536, 2 ** 40])))
+        else:
+            # RPCs the emulator does not implement: a status, nothing else
+            self.emit("unimpl " + r.choice(["update_topic", "list_topic_snapshots", "detach_subscription", "update_subscription",
+                                            "modify_push_config", "get_snapshot", "list_snapshots", "create_snapshot",
+                                            "update_snapshot", "delete_snapshot", "seek"]))
 
     TABLE = {
         "ctopic": op_ctopic, "dtopic": op_dtopic, "gtopic": op_gtopic, "csub": op_csub, "dsub": op_dsub,
